@@ -31,6 +31,53 @@ func runC09(c *Ctx, r *Report) {
 	optionForwarding(c, r, "R-C09.6", append(append(loaderFetchSpecs(), constructorLoaderSpecs()...), constructorLogSpecs()...))
 	r.Doc("R-C09.7", "the fetch that rebuilds the log cannot stall or give up with hashes still queued: worker accounting, slot release before the mutex, re-checked condition waits")
 	importRules(c, r, "C11", []string{"R-C11.1", "R-C11.2", "R-C11.6"}, "R-C09.7")
+	r.Doc("R-C09.8", "the entry reader refuses a block only when reading or decoding it failed: no extra acceptance test on the decoded entry (whatever Append wrote must load again)")
+	{
+		nret := 0
+		for _, t := range []struct{ pkg, recv, name string }{{"entry", "", "FromMultihashWithIO"}, {"entry", "Fetcher", "fetchEntry"}} {
+			fn := p.FuncI(t.pkg, t.recv, t.name)
+			sf := p.SSAFunc(fn)
+			allInstrs(sf, false, func(ins ssa.Instruction) {
+				ret, ok := ins.(*ssa.Return)
+				if !ok || len(ret.Results) < 2 {
+					return
+				}
+				if cst, ok := ret.Results[len(ret.Results)-1].(*ssa.Const); ok && cst.IsNil() {
+					return // success return
+				}
+				if _, isCall := ret.Results[0].(*ssa.Call); isCall {
+					return // tail call: the callee's own returns are checked
+				}
+				if ex, ok := ret.Results[0].(*ssa.Extract); ok {
+					if _, isCall := ex.Tuple.(*ssa.Call); isCall {
+						return
+					}
+				}
+				nret++
+				bad := ""
+				for _, cnd := range controlConds(ret.Block()) {
+					okc := false
+					if b, ok := cnd.(*ssa.BinOp); ok && (b.Op == token.EQL || b.Op == token.NEQ) {
+						for _, side := range []ssa.Value{b.X, b.Y} {
+							if cst, ok := side.(*ssa.Const); ok && cst.IsNil() {
+								okc = true
+							}
+						}
+					}
+					if !okc {
+						bad = p.Pos(cnd.Pos())
+						if bad == "?" || bad == "-" {
+							bad = cnd.String()
+						}
+					}
+				}
+				r.Check(bad == "", "R-C09.8", r.Key("R-C09.8", fn, "refusal", ""), ret.Pos(),
+					"the block is refused only on a failed read/decode (or a missing argument)",
+					"the entry reader refuses a decoded block under the condition at "+bad+", which is not a read/decode failure: entries that Append accepts (e.g. with an empty payload) are dropped when the log is rebuilt, together with everything reachable only through them")
+			})
+		}
+		r.Floor("R-C09.8", "error returns of the entry reader", nret, 2)
+	}
 
 	loadOfField := func(v ssa.Value, owner *types.Named, field string) bool {
 		for x := range backSlice(v, nil) {
